@@ -153,6 +153,7 @@ def _wk(w):
 WORLD_DECLS = {"io": lambda w: __import__("contracts.io", fromlist=["declare"]).declare(w),
                "mc": lambda w: __import__("contracts.multichannel", fromlist=["declare"]).declare(w),
                "wk": _wk,
+               "ser": lambda w: __import__("contracts.serializer", fromlist=["declare"]).declare(w),
                "mr": lambda w: __import__("contracts.channel", fromlist=["declare_dispatch"]).declare_dispatch(w)}
 EXECTASK = f"wk::{GB}:WorkerGateway.executetask"
 DISPATCH = f"mr::{GB}:Message.received"     # the protocol's decision table: which handler, for which channel, with which arguments (history variable)
@@ -165,8 +166,11 @@ SPECS = {
                  f"io::{GB}:BaseGateway._send", f"io::{GB}:Message.to_io",
                  # "each frame is decoded once": the read side returns exactly the frame's bytes (an over-read swallows the next frame)
                  f"io::{GB}:Message.from_io", f"io::{GB}:Popen2IO.read", "io::execnet.gateway_socket:SocketIO.read", f"io::{GB}:Popen2IO.write", "io::execnet.gateway_socket:SocketIO.write",
-                 DISPATCH], scenarios=["c02_order", "c02_dropped_callback", "c10_callback"],
-        extra_worlds="io,mr",
+                 DISPATCH,
+                 # "without leakage into any other channel": an item's payload is a function of the item alone - dumps_internal touches no state that outlives the call
+                 # (a serializer shared between calls is shared between threads and between channels, and keeps the fragments of a rejected item)
+                 f"ser::{GB}:dumps_internal", f"ser::{GB}:_Serializer.save"], scenarios=["c02_order", "c02_dropped_callback", "c10_callback", "c02_big_concurrent"],
+        extra_worlds="io,mr,ser",
         heavy={F + "_local_receive": 6, GBR: 8, MRC: 4, C + "setcallback": 4, DISPATCH: 6},
         extra=["items sent before the peer holds the channel object are dropped by _local_receive (`pass  # drop data`): the contract states it (unknown id: nothing changes)"],
         canary=(F + "_local_receive", "item-queued-at-the-head", canary_c02)),
